@@ -1176,9 +1176,14 @@ bool StepScript(ScriptExecutionEnvironment& env, CScript::const_iterator& pc, CS
                         valtype& vchSig = stacktop(-isig-k);
                         if (sigversion == SigVersion::BASE) {
                             int found = FindAndDelete(scriptCode, CScript() << vchSig);
-                            // (a signature listed with --pretend-valid is accepted regardless of the rules for real signatures,
-                            // as in OP_CHECKSIG, where the listed pair is honoured before this test is reached)
-                            if (found > 0 && (flags & SCRIPT_VERIFY_CONST_SCRIPTCODE) && !pretend_valid_map.count(vchSig))
+                            // (a signature listed with --pretend-valid for one of the keys of this operation is accepted regardless
+                            // of the rules for real signatures, as in OP_CHECKSIG, where the listed pair is honoured before this test
+                            // is reached; listed for a key that is not among them, the option changes nothing)
+                            bool listed = false;
+                            if (pretend_valid_map.count(vchSig)) {
+                                for (int kk = 0; kk < total_keys; kk++) listed |= pretend_valid_map.at(vchSig).count(stacktop(-starting_key_pos - kk)) > 0;
+                            }
+                            if (found > 0 && (flags & SCRIPT_VERIFY_CONST_SCRIPTCODE) && !listed)
                                 return set_error(serror, SCRIPT_ERR_SIG_FINDANDDELETE);
                         }
                     }
